@@ -90,6 +90,22 @@ INPUT_CASES = [
 ]
 
 
+# lists whose length must match the number of atoms of a group: too short, too long, repeated or foreign members
+_REF4 = "(0.0, 0.0, 0.0) (1.0, 0.0, 0.0) (0.0, 1.0, 0.0) (0.0, 0.0, 1.0)"
+STRUCT_CASES = [
+ "colvar {\n name q\n rmsd {\n  atoms { atomNumbers 1 2 3 4 }\n  refPositions " + _REF4 + "\n  atomPermutation 2 1\n }\n}\n",
+ "colvar {\n name q\n rmsd {\n  atoms { atomNumbers 1 2 3 4 }\n  refPositions " + _REF4 + "\n  atomPermutation 2 2 3 4\n }\n}\n",
+ "colvar {\n name q\n rmsd {\n  atoms { atomNumbers 1 2 3 4 }\n  refPositions " + _REF4 + "\n  atomPermutation 2 1 3 9\n }\n}\n",
+ "colvar {\n name q\n rmsd {\n  atoms { atomNumbers 1 2 3 4 }\n  refPositions " + _REF4 + "\n  atomPermutation 2 1 4 3 1\n }\n}\n",
+ "colvar {\n name q\n rmsd {\n  atoms { atomNumbers 1 2 3 4 }\n  refPositions (0.0, 0.0, 0.0) (1.0, 0.0, 0.0)\n }\n}\n",
+ "colvar {\n name q\n eigenvector {\n  atoms { atomNumbers 1 2 3 4 }\n  refPositions " + _REF4 + "\n  vector (1.0, 0.0, 0.0) (0.0, 1.0, 0.0)\n }\n}\n",
+ "colvar {\n name q\n eigenvector {\n  atoms { atomNumbers 1 2 3 4 }\n  refPositions " + _REF4 + "\n  vector " + _REF4 + " " + _REF4 + "\n }\n}\n",
+ "colvar {\n name q\n eigenvector {\n  atoms { atomNumbers 1 2 3 4 }\n  refPositions (0.0, 0.0, 0.0)\n  vector " + _REF4 + "\n }\n}\n",
+ "colvar {\n name q\n orientation {\n  atoms { atomNumbers 1 2 3 4 }\n  refPositions (0.0, 0.0, 0.0) (1.0, 0.0, 0.0)\n }\n}\n",
+ "colvar {\n name q\n distanceZ {\n  main { atomNumbers 1 2\n   centerToReference on\n   rotateToReference on\n   refPositions (0.0, 0.0, 0.0)\n  }\n  ref { atomNumbers 3 }\n }\n}\n",
+]
+
+
 def scenario(work, idx, text, rng, via_script=False, pre=None):
     prefix = os.path.join(work, "o%d" % idx)
     L = []
@@ -323,8 +339,16 @@ def extra(rep, tier, rng):
     jobs += [("reject%d" % i, "(whole configuration)", r[1].split("\n")[0]) for i, r in enumerate(REJECTS)]
     nrejects = len(jobs)
     jobs += [("input%d" % i, "(whole configuration)", " ".join(t.split()[5:])[:60]) for i, t in enumerate(INPUT_CASES)]
+    ninputs = len(jobs)
+    jobs += [("struct%d" % i, "(whole configuration)", " ".join(t.split()[4:6]) + " … " + " ".join(t.split()[-8:-3])[:50]) for i, t in enumerate(STRUCT_CASES)]
     files = []
     for i, (obj, key, val) in enumerate(jobs):
+        if i >= ninputs:
+            L = scenario(work, i, STRUCT_CASES[i - ninputs], rng.fork(), via_script=(i % 2 == 1))
+            f = os.path.join(work, "c%d.txt" % i)
+            open(f, "w").write("\n".join(L) + "\n")
+            files.append(f)
+            continue
         if i >= nrejects:
             pre = os.path.join(work, "in%d" % i)
             L = scenario(work, i, INPUT_CASES[i - nrejects] % {"pre": pre}, rng.fork(), pre=pre)
